@@ -29,17 +29,21 @@ def run(ctx):
             return 10 ** 9
         return int(min(10 ** 9, float(np.max(np.abs(a - b)) / max(np.max(np.abs(b)), 1e-300)) * 1e12))
 
-    def one(sig, noise, G, NF, tag, dtype_k=0):
-        """run EDFA with the RNG tapped and record the observables of AmplifierTrace"""
+    def one(sig, noise, G, NF, tag, dtype_k=0, obj=None):
+        """run EDFA with the RNG tapped and record the observables of AmplifierTrace (obj: an existing signal object, e.g. the output of another amplifier)"""
+        if obj is not None:
+            sig, noise = np.asarray(obj.signal), (None if obj.noise is None else np.asarray(obj.noise))
         npol = 1 if sig.ndim == 1 else 2
-        if dtype_k == 1 and np.all(sig.imag == 0) and (noise is None or np.all(noise.imag == 0)):
+        if obj is None and dtype_k == 1 and np.all(sig.imag == 0) and (noise is None or np.all(noise.imag == 0)):
             sig, noise = sig.real.astype(float), (None if noise is None else noise.real.astype(float))
-        if dtype_k == 2 and np.all(sig.imag == 0) and np.all(sig.real == np.round(sig.real)):
+        if obj is None and dtype_k == 2 and np.all(sig.imag == 0) and np.all(sig.real == np.round(sig.real)):
             sig = sig.real.astype(int)
-        x = optical_signal(sig, noise)
+        x = optical_signal(sig, noise) if obj is None else obj
         for a in (x.signal, x.noise):
             if a is not None:
                 a.flags.writeable = False
+        if obj is not None:
+            sig, noise = np.asarray(sig, dtype=complex), (None if noise is None else np.asarray(noise, dtype=complex))
         with tap() as t, deadline(120):
             out = EDFA(x, G, NF)
         g = math.sqrt(10 ** (G / 10))
@@ -192,6 +196,25 @@ def run(ctx):
                 raised = type(e).__name__
             events.append({"kind": "type", "raised": raised})
             meta.append(("type", type(bad).__name__ + "-keyword"))
+    # amplifier chains: the second stage receives whatever object the first one returned (real-valued signal arrays with complex ASE included);
+    # carriers set through gv.f0 rather than through the wavelength
+    for it in range(24 if T else 6):
+        with warnings.catch_warnings():
+            warnings.simplefilter("ignore")
+            gv(sps=8, R=10e9)
+        if it % 2:
+            gv.f0 = [196.1e12, 229e12, 191.3e12][it % 3]          # the carrier frequency is what the ASE formula reads
+        rs = np.random.RandomState(6000 + it)
+        n_ = [64, 129][it % 2]
+        base_ = rs.randn(1 + (it // 2) % 2, n_) * 1e-2 + (0 if it % 3 else 1j * rs.randn(1 + (it // 2) % 2, n_) * 1e-2)
+        base_ = base_.real.copy() if it % 3 == 0 else base_
+        x0 = optical_signal(base_ if base_.shape[0] == 2 else base_[0])
+        np.random.seed(300 + it)
+        with deadline(60):
+            y1 = EDFA(x0, 15.0, 5.0)
+        np.random.seed(400 + it)
+        one(None, None, 12.0, 6.0, ("chain", y1.n_pol, True, 12), obj=y1)
+        ctx.case(("chain", it % 3 == 0, it % 2), None)
     # records of one, two and three samples (deterministic clauses only: a draw block cannot be attributed on so few samples)
     with warnings.catch_warnings():
         warnings.simplefilter("ignore")
